@@ -39,8 +39,13 @@ MANIFEST = dict(
          "(every member is a defect instance), and outside it the full statement holds word for word (C08_full_outside); "
          "modulo is the flooring remainder outside a decidable class of two Fixnum-Rational cases that are refuted by "
          "witnesses. The earlier full-strength statements of modulo, inexact-only-if and float comparison were FALSE as "
-         "written and are kept with their refutations. OPEN (oracle-checked on every run only): the 2^-50 error bound, abs "
-         "floor ceiling truncate numerator denominator expt, variadic folds. Tied to /repo by all pairs of the property's palette in every representation, through the Number API and "
+         "written and are kept with their refutations. abs numerator denominator truncate floor ceiling round and expt "
+         "(exact base, exponent fitting u32) return the exact value outside decidable overflow classes, and in a debug build panic EXACTLY in "
+         "those classes (the recorded ratio32-overflow-panic finding, now characterised by arithmetic conditions); round is proved to be "
+         "half-away-from-zero, which differs from R7RS round-to-even exactly on n/2 with n div 2 even (C08 does not list round; noted in DESIGN.md 10.4); the variadic + * - "
+         "equal the n-ary sum/product whenever the result is exact, min/max return an argument bounding all; quotient/remainder/modulo of two "
+         "integer-valued rationals complete the representation pairs. OPEN (oracle-checked on every run only): the 2^-50 error bound, when an "
+         "inexact FOLD is justified (a witness shows it need not be), expt of a rational base beyond i32 exponents (libm). Tied to /repo by all pairs of the property's palette in every representation, through the Number API and "
          "through Vm::eval, debug and release builds, 3-way (impl / extracted model / vm_compute), with an independent "
          "exact-rational oracle for every clause of the property incl. representation independence.",
     design="DESIGN.md section 5 C08",
@@ -50,8 +55,8 @@ MANIFEST = dict(
          "whose statement mentions a number.rs function (num_add ...) reports the four standard-library axioms behind "
          "Coq's reals (ClassicalDedekindReals.sig_not_dec, sig_forall_dec, functional_extensionality_dep, "
          "Classical_Prop.classic) because the float arms of the same functions are Flocq operations whose validity "
-         "proofs are built over R; no other axiom. OPEN (oracle-checked only): abs/floor/ceiling/truncate/numerator/"
-         "denominator/expt exactness, error bound, variadic folds.",
+         "proofs are built over R; no other axiom. OPEN (oracle-checked only): error bound, justification of inexact "
+         "folds, libm-dependent expt.",
     technique="Rocq/Coq proof (Z/Q arithmetic, gcd reasoning) + model/implementation correspondence check")
 
 API_ARITH = [0, 1, 2, 3]          # + - * /
